@@ -189,8 +189,11 @@ func C20(c Ctx) *report.Report {
 			dflt = sdk.ZeroDec() // zero weight: total depth 0 unless a pool multiplier says otherwise
 		}
 		var mults []*clptypes.PoolMultiplier
-		for _, t := range toks {
-			if rng.Intn(3) == 0 {
+		for ti, t := range toks {
+			if ti == 0 && rng.Intn(4) == 0 {
+				z := sdk.ZeroDec() // excluded pool sorting first
+				mults = append(mults, &clptypes.PoolMultiplier{PoolMultiplierAsset: t, Multiplier: &z})
+			} else if rng.Intn(3) == 0 {
 				m := sdk.NewDecWithPrec(int64(rng.Intn(1001)), 2)
 				mults = append(mults, &clptypes.PoolMultiplier{PoolMultiplierAsset: t, Multiplier: &m})
 			}
